@@ -1,6 +1,8 @@
 import FitProps.LinkLemmasInteg
 import FitProps.LinkLemmasLoop
 import FitProps.LinkLemmasAcct
+import FitProps.LinkLemmasRaw
+import FitProps.C16
 import FitProps.C04
 import FitProps.C08
 import FitModel.Generated.DecApiStdFactory
@@ -270,5 +272,36 @@ theorem Link_C04_truncation_api (o : Opts) (hchk : o.chk = true) (hfac : FacOK o
     (hlen : f.length < 4294967296) : RejectedByApi o (f.take k) :=
   Link_rejected_api o _ hchk (fun x hx => hf.1 x (List.mem_of_mem_take hx)) (by simp; omega) hfac hbt hfd
     (C04.C04_truncation f hf k hk)
+
+/-! ## the independent framing spec → the raw decoder -/
+
+/-- **FitFormat ⇒ Raw (the global form of C16_lengths).** Whenever the independent reading of the protocol (`FitFormat`)
+segments a non-empty stream into file headers, records and CRCs, the raw decoder model accepts the stream (no error),
+and the segments it hands to its callback are EXACTLY those — same kinds, offsets and lengths, in order — covering the
+whole stream; the number of sequences it reports is the spec's. (The empty stream is the one exception: the spec calls
+it a stream of zero sequences, `RawDecoder.Decode` returns `io.EOF`.) -/
+theorem Link_fitformat_raw (bs : Bytes) (hb : IsBytes bs) (hne : bs ≠ []) (segs : List (FitFormat.Kind × Nat × Nat))
+    (h : FitFormat.segments bs = some segs) (fuel : Nat) (hf : bs.length < fuel) :
+    (C16.rawOut none fuel bs).status = none ∧ layout 0 (C16.rawOut none fuel bs).segs = segs ∧
+      Raw.flat (C16.rawOut none fuel bs).segs = bs ∧
+      ∃ seqs, FitFormat.parseStream bs = some seqs ∧ (C16.rawOut none fuel bs).seqs = seqs.length := by
+  unfold FitFormat.segments at h
+  cases hp : FitFormat.parseStream bs with
+  | none => simp [hp] at h
+  | some seqs =>
+    simp only [hp, Option.map_some] at h
+    injection h with h
+    have hlen := parseSeqs_len _ _ _ _ hp
+    obtain ⟨ns, hrun, hlay, hflat⟩ := seqs_raw bs.length 0 bs seqs hp hb fuel {} (by omega) (Or.inl hne)
+    unfold C16.rawOut
+    rw [hrun]
+    simp only [List.append_nil, List.reverse_reverse]
+    refine ⟨trivial, by rw [hlay, h], hflat, seqs, rfl, ?_⟩
+    show (0 : Nat) + seqs.length = seqs.length
+    omega
+
+/-- non-vacuity: the two-sequence stream of C16's example is segmented by the spec (8 segments) -/
+example : (FitFormat.segments [14, 32, 0, 0, 16, 0, 0, 0, 46, 70, 73, 84, 0, 0,  0x42, 0, 0, 20, 0, 2, 3, 1, 2, 4, 0, 2,  0xC5, 9,  2, 7,  0, 0,
+    12, 32, 0, 0, 9, 0, 0, 0, 46, 70, 73, 84,  0x40, 0, 1, 0, 0, 1, 0, 1, 2,  0, 0]).map List.length = some 8 := by decide +kernel
 
 end Fit.Links
